@@ -307,7 +307,7 @@ def main(argv):
     elif rp:
         hs = []
     else:
-        n = 350 if ck.tier == "quick" else 6000
+        n = 250 if ck.tier == "quick" else 4000
         hs = corpus(lanes) + [gen_history(ck.rng, lanes) for _ in range(n)]
 
     def nontrivial(h, impl):
